@@ -238,6 +238,8 @@ def cli_presentations(ctx, tspecs, k, rw_name, rnd, workdir, hashseeds):
     ctx.case(spec, nontrivial(tspecs), ["cli-cross-process", "rewriter:" + rw_name, "k=%d" % k])
     distinct = len({json.dumps(t) for t in tspecs})
     results = []
+    import datetime
+    day0 = datetime.date.today()
     for p, hs in enumerate(hashseeds):
         db = os.path.join(workdir, f"p{p}.sqlite3")
         if os.path.exists(db):
@@ -268,6 +270,28 @@ def cli_presentations(ctx, tspecs, k, rw_name, rnd, workdir, hashseeds):
         except stubread.StubError:
             ctx.label("skipped:stub-not-canonicalisable(C11/C12 findings)")
             return
+    if distinct >= 2 and len(hashseeds) >= 2 and day0 == datetime.date.today():
+        # a row limit that BINDS: which traces survive it may depend on the set of stored traces, never on the order, the
+        # duplication or the batches they arrived in (all rows carry the same date; a run that crosses midnight is skipped)
+        lim = max(1, distinct // 2)
+        limited = []
+        for p, hs in list(enumerate(hashseeds))[:2]:
+            env = dict(os.environ, MTV_DB=os.path.join(workdir, f"p{p}.sqlite3"), MTV_K=str(k), MTV_RW=rw_name, PYTHONHASHSEED=str(hs))
+            pr = subprocess.run([sys.executable, "-m", "monkeytype", "-c", "fx_cfg:CONFIG", "--limit", str(lim), "stub", "fx_target"], env=env, capture_output=True, text=True, cwd=workdir)
+            if pr.returncode != 0 or not pr.stdout.strip():
+                limited = None
+                break
+            try:
+                limited.append((pr.stdout, canonical(pr.stdout)))
+            except stubread.StubError:
+                limited = None
+                break
+        if limited:
+            ctx.label("binding-row-limit")
+            d = diff(limited[0][1], limited[1][1])
+            if d:
+                return ctx.fail("C14/stub-depends-on-presentation-or-process", spec + ["binding-limit"],
+                                f"--limit {lim} (fewer than the {distinct} distinct traces), same trace set stored in another order / other batches: {d}\n--- first\n{limited[0][0][:900]}\n--- other\n{limited[1][0][:900]}", raise_=False)
     p0, _, text0, c0 = results[0]
     for p, hs, text, c in results[1:]:
         d = diff(c0, c)
@@ -326,6 +350,51 @@ def lib_presentations(ctx, tspecs, k, rw_name, workdir, seeds):
         elif d:
             return ctx.fail("C14/stub-depends-on-presentation-or-process", spec,
                             f"library entry point, rows in another order (shuffle {s0} vs {sd}): {d}\n--- first\n{t0[:900]}\n--- other\n{text[:900]}", raise_=False)
+
+
+TWO_SCRIPT = """
+import itertools, sys
+import fxh, fx_target as X, nmtarget as Y
+from monkeytype.stubs import build_module_stubs_from_traces, StubIndexBuilder
+from monkeytype.tracing import CallTrace
+order, k, a, b, route = int(sys.argv[1]), int(sys.argv[2]), getattr(fxh, sys.argv[3]), getattr(fxh, sys.argv[4]), sys.argv[5]
+traces = [CallTrace(X.pair, {"p_pair1": a, "p_pair2": int}, type(None), None),
+          CallTrace(X.second, {"p_first": b, "p_second": int}, int, None),
+          CallTrace(Y.g, {"x": a, "y": int}, a, None)]
+traces = list(list(itertools.permutations(traces))[order % 6])
+if order >= 6:
+    traces = traces + traces[:2]
+if route == "index-builder":
+    sib = StubIndexBuilder("fx_target|nmtarget", k)
+    for t in traces:
+        sib.log(t)
+    stubs = sib.get_stubs()
+else:
+    stubs = build_module_stubs_from_traces(traces, k)
+for name in sorted(stubs):
+    print("#### " + name)
+    print(stubs[name].render())
+"""
+
+
+def two_module_builds(ctx, a, b, k, route, workdir, orders):
+    """ONE generation that covers two modules: fx_target has two functions that mention two classes of one library module in
+    separate signatures, nmtarget mentions only the first. Every order of the three traces, in a fresh interpreter each: the
+    text of both stubs (no unions anywhere, so the text is determined) must be the same."""
+    spec = ["TWOMOD", a, b, k, route]
+    ctx.case(spec, True, ["two-modules-one-generation", "route:" + route, "k=%d" % k])
+    results = []
+    for o in orders:
+        pr = subprocess.run([sys.executable, "-c", TWO_SCRIPT, str(o), str(k), a, b, route], capture_output=True, text=True, cwd=workdir,
+                            env=dict(os.environ, PYTHONHASHSEED=str(o % 4)))
+        if pr.returncode != 0 or not pr.stdout.strip():
+            raise core.HarnessError(f"two-module build failed: rc={pr.returncode} {pr.stderr[-600:]}")
+        results.append((o, pr.stdout))
+    o0, t0 = results[0]
+    for o, t in results[1:]:
+        if t != t0:
+            return ctx.fail("C14/stub-depends-on-order-or-duplication", spec,
+                            f"one generation covering two modules, traces in order {o0} vs {o}:\n--- first\n{t0[:900]}\n--- other\n{t[:900]}", raise_=False)
 
 
 def _overlap_classes():
@@ -484,6 +553,11 @@ def shard(ctx):
             lib_presentations(ctx, tspecs, k, rw, workdir, [0, 1, 2, 3] if q else list(range(0, 10)))
         if ctx.shard == 3 % ctx.nshards:
             big_run(ctx, 110 if q else 150)
+        two = ["D1", "D2", "D3", "D4", "Base", "Other"]
+        for j in range(1 if q else 6):
+            ai = rnd.randrange(len(two))
+            two_module_builds(ctx, two[ai], two[(ai + 1 + rnd.randrange(len(two) - 1)) % len(two)], rnd.choice([0, 3]), ["library", "index-builder"][(ctx.shard + j) % 2], workdir,
+                              list(range(6)) if q else list(range(8)))
         for _ in range(1 if q else 4):
             overlap_presentations(ctx, [rnd.randrange(0, 9) for _ in range(6)], workdir, [0, 1, 2, 3, 4] if q else list(range(12)))
     finally:
@@ -503,6 +577,12 @@ def replay(ctx, case):
             shutil.rmtree(d, ignore_errors=True)
     if case[0] == "BIGRUN":
         return big_run(ctx, case[1])
+    if case[0] == "TWOMOD":
+        d = tempfile.mkdtemp(prefix="c14-")
+        try:
+            return two_module_builds(ctx, case[1], case[2], case[3], case[4], d, list(range(8)))
+        finally:
+            shutil.rmtree(d, ignore_errors=True)
     if case[0] == "OVERLAP":
         d = tempfile.mkdtemp(prefix="c14-")
         try:
